@@ -1,6 +1,7 @@
 package routers
 
 import (
+	"errors"
 	"fmt"
 	"strings"
 
@@ -100,6 +101,10 @@ func (r *SwitchRouter) Validate(flow flows.Flow, exits []flows.Exit) error {
 	}
 
 	for _, c := range r.cases {
+		if c == nil {
+			return errors.New("cases can't contain null")
+		}
+
 		// check each case points to a valid category
 		if !r.isValidCategory(c.CategoryUUID) {
 			return fmt.Errorf("case category %s is not a valid category", c.CategoryUUID)
